@@ -190,6 +190,8 @@ def model_rows(events):
 
 
 def rows_of(cat):
+    if getattr(cat, 'catalog', None) is None:
+        return []
     return [tuple(r) for r in cat.catalog.tolist()]
 
 
@@ -361,7 +363,21 @@ def _execute14(scn, ctx, store, clock):
             elif fmt == 'dict':
                 r = call(cat.to_dict)
                 if r[0] == 'ok':
-                    r = call(CSEPCatalog.from_dict, r[1])
+                    d_ = r[1]
+                    before_ = copy.deepcopy(d_)
+                    r = call(CSEPCatalog.from_dict, d_)
+                    if r[0] == 'ok' and oi % 2 == 0:
+                        # the same dictionary is used once more (it is the caller's object and must not have changed)
+                        r2_ = call(CSEPCatalog.from_dict, d_)
+                        if r2_[0] != 'ok' or not _compare_rows(ctx, rows_of(r2_[1]), want, 'dict:second-use-of-the-same-dict', oi):
+                            break
+                        try:
+                            same_ = (d_ == before_)
+                        except Exception:
+                            same_ = True
+                        if not same_:
+                            ctx.violate('C14', 'argument_mutated', 'from_dict-modified-the-callers-dictionary', {'op': oi})
+                            break
             else:
                 r = call(cat.to_dataframe, with_datetime=op['with_datetime'])
                 if r[0] == 'ok':
